@@ -30,3 +30,8 @@ def check(ctx):
     spsc.rule_parked_visible_to_collector(ctx, facts, "R7")
     from .. import provrules
     provrules.rule_not_sampled_sentinel(ctx, facts, "R8")
+    # a cancelled trace stays cancelled: nothing but a StartCollect creates an active collector (a late span must not bring one
+    # back), and the cancelable switch survives the other Config setters
+    if c.need("R9"):
+        collector.rule_map_ops(ctx, c, "R9")
+    provrules.rule_config(ctx, facts, "R10")
